@@ -687,3 +687,16 @@ Print Assumptions C05_len_exact_proof.
 Print Assumptions C05_fused_proof.
 Print Assumptions C05_legacy_refuted_proof.
 Print Assumptions C05_hypothesis_needed_proof.
+
+Lemma C08_four_agree_proof : stmt_C08_four_agree.
+Proof.
+  unfold stmt_C08_four_agree. intros it c n ns arr Hc Hn Hns Harr Hen.
+  pose proof (C08_count_iter_proof it c n Hc Hn) as H1.
+  pose proof (C08_names_length_proof it ns Hns) as H2.
+  pose proof (C08_array_proof it arr Harr) as H3.
+  pose proof (C08_no_disabled_positions_proof it c Hc Hen) as H4.
+  assert (HL : length (ic_table c) = length (i_variants it)).
+  { rewrite <- (map_length ct_variant), H4. apply seq_length. }
+  split; [lia|]. split; [rewrite H3, seq_length; lia|]. split; [exact H1|]. rewrite H3, H4. reflexivity.
+Qed.
+Print Assumptions C08_four_agree_proof.
